@@ -969,3 +969,53 @@ pub fn render_checked(view: &dyn View, cfg: &RunCfg) -> Result<RenderOutcome, Fa
         root,
     })))
 }
+
+/// The documented convenience entry point: `surface.draw_view(ctx, store, view)` lays the view out
+/// under `BoxConstraint::loose(surface.size())` and renders it. Runs it on the (BORDER-framed)
+/// sub-view of a fresh canvas, with or without a caller-provided (and already used) layout store.
+pub fn draw_view_checked(view: &dyn View, cfg: &RunCfg, reuse_store: bool) -> Result<RenderOutcome, Fail> {
+    use surf_n_term::render::TerminalSurfaceExt;
+    let ctx = cfg.ctx();
+    let surf_size = Size::new(cfg.surf.0, cfg.surf.1);
+    let canvas_size = Size::new(surf_size.height + 2 * BORDER, surf_size.width + 2 * BORDER);
+    let mut canvas = SurfaceOwned::new_with(canvas_size, |_| sentinel_cell());
+    canvas
+        .view_mut(BORDER..BORDER + surf_size.height, BORDER..BORDER + surf_size.width)
+        .fill(initial_cell());
+    let mut store = ViewLayoutStore::new();
+    if reuse_store {
+        // a store that still holds the layout of an earlier frame
+        let _ = view.layout_new(&ctx, cfg.constraint(), &mut store);
+    }
+    let result = {
+        let mut surf = canvas.view_mut(BORDER..BORDER + surf_size.height, BORDER..BORDER + surf_size.width);
+        if reuse_store {
+            surf.draw_view(&ctx, Some(&mut store), view)
+        } else {
+            let mut own = ViewLayoutStore::new();
+            let r = surf.draw_view(&ctx, Some(&mut own), view);
+            store = own;
+            r
+        }
+    };
+    let sentinel = sentinel_cell();
+    for row in 0..canvas_size.height {
+        for col in 0..canvas_size.width {
+            let inside = row >= BORDER && row < BORDER + surf_size.height && col >= BORDER && col < BORDER + surf_size.width;
+            if !inside && canvas.get(Position::new(row, col)).expect("inside canvas") != &sentinel {
+                return Err(Fail::new(
+                    "draw_view:sentinel-modified",
+                    format!(
+                        "draw_view: cell ({row},{col}) of the canvas, outside the {}x{} surface at ({BORDER},{BORDER}), was modified; cfg={:?}",
+                        surf_size.height, surf_size.width, cfg
+                    ),
+                ));
+            }
+        }
+    }
+    match result {
+        Err(err) => Ok(RenderOutcome::ViewError(format!("draw_view: {err}"))),
+        Ok(root) => Ok(RenderOutcome::Done(Box::new(Rendered { canvas, surf: surf_size, store, root }))),
+    }
+}
+
